@@ -2040,3 +2040,219 @@ pub fn sct_v2_polyglots() -> Vec<W> {
     }
     out
 }
+
+fn hexb(s: &str) -> Vec<u8> {
+    let s: String = s.chars().filter(|c| c.is_ascii_hexdigit()).collect();
+    (0..s.len() / 2).map(|i| u8::from_str_radix(&s[2 * i..2 * i + 2], 16).unwrap()).collect()
+}
+
+/// Field primes of curves and groups everybody knows (NIST P-256 / P-384 / P-521, secp256k1, brainpoolP256r1,
+/// Curve25519, ffdhe2048): "magic values" for prime fields, like the HelloRetryRequest random for hellos.
+pub fn well_known_primes() -> Vec<(&'static str, Vec<u8>)> {
+    vec![
+        ("P-256", hexb("FFFFFFFF00000001000000000000000000000000FFFFFFFFFFFFFFFFFFFFFFFF")),
+        ("P-384", hexb("FFFFFFFFFFFFFFFFFFFFFFFFFFFFFFFFFFFFFFFFFFFFFFFFFFFFFFFFFFFFFFFEFFFFFFFF0000000000000000FFFFFFFF")),
+        ("P-521", {
+            let mut v = vec![0x01];
+            v.extend(std::iter::repeat(0xff).take(65));
+            v
+        }),
+        ("secp256k1", hexb("FFFFFFFFFFFFFFFFFFFFFFFFFFFFFFFFFFFFFFFFFFFFFFFFFFFFFFFEFFFFFC2F")),
+        ("brainpoolP256r1", hexb("A9FB57DBA1EEA9BC3E660A909D838D726E3BF623D52620282013481D1F6E5377")),
+        ("curve25519", hexb("7FFFFFFFFFFFFFFFFFFFFFFFFFFFFFFFFFFFFFFFFFFFFFFFFFFFFFFFFFFFFFFFED")),
+        ("P-224", hexb("FFFFFFFFFFFFFFFFFFFFFFFFFFFFFFFF000000000000000000000001")),
+        ("ffdhe2048", hexb("FFFFFFFFFFFFFFFFADF85458A2BB4A9AAFDC5620273D3CF1D8B9C583CE2D3695A9E13641146433FBCC939DCE249B3EF97D2FE363630C75D8F681B202AEC4617AD3DF1ED5D5FD65612433F51F5F066ED0856365553DED1AF3B557135E7F57C935984F0C70E0E68B77E2A689DAF3EFE8721DF158A136ADE73530ACCA4F483A797ABC0AB182B324FB61D108A94BB2C8E3FBB96ADAB760D7F4681D4F42A3DE394DF4AE56EDE76372BB190B07A7C8EE0A6D709E02FCE1CDF7E2ECC03404CD28342F619172FE9CE98583FF8E4F1232EEF28183C3FE3B1B4C6FAD733BB5FCBC2EC22005C58EF1837D1683B2C6F34A26C1B2EFFA886B423861285C97FFFFFFFFFFFFFFFF")),
+    ]
+}
+
+/// explicit-prime ECParameters / ServerECDHParams built on the well-known primes (real a, b, base point, order
+/// for P-256 and P-384; p - 3 / counting values for the others), and ServerDHParams on the same moduli
+pub fn ec_explicit_real() -> Vec<W> {
+    let mut v = Vec::new();
+    let p256 = (
+        hexb("5AC635D8AA3A93E7B3EBBD55769886BC651D06B0CC53B0F63BCE3C3E27D2604B"),
+        hexb("046B17D1F2E12C4247F8BCE6E563A440F277037D812DEB33A0F4A13945D898C2964FE342E2FE1A7F9B8EE7EB4A7C0F9E162BCE33576B315ECECBB6406837BF51F5"),
+        hexb("FFFFFFFF00000000FFFFFFFFFFFFFFFFBCE6FAADA7179E84F3B9CAC2FC632551"),
+    );
+    let p384 = (
+        hexb("B3312FA7E23EE7E4988E056BE3F82D19181D9C6EFE8141120314088F5013875AC656398D8A2ED19D2A85C8EDD3EC2AEF"),
+        hexb("04AA87CA22BE8B05378EB1C71EF320AD746E1D3B628BA79B9859F741E082542A385502F25DBF55296C3A545E3872760AB73617DE4A96262C6F5D9E98BF9292DC29F8F41DBD289A147CE9DA3113B5F0B8C00A60B1CE1D7E819D7A431D7C90EA0E5F"),
+        hexb("FFFFFFFFFFFFFFFFFFFFFFFFFFFFFFFFFFFFFFFFFFFFFFFFC7634D81F4372DDF581A0DB248B0A77AECEC196ACCC52973"),
+    );
+    for (name, p) in well_known_primes() {
+        if p.len() > 255 {
+            continue;
+        }
+        let mut a = p.clone();
+        let l = a.len();
+        a[l - 1] = a[l - 1].wrapping_sub(3);
+        let (b, g, n) = match name {
+            "P-256" => p256.clone(),
+            "P-384" => p384.clone(),
+            _ => {
+                let b: Vec<u8> = (0..p.len()).map(|i| (i * 7 + 1) as u8).collect();
+                let mut g = vec![4u8];
+                g.extend((0..2 * p.len()).map(|i| (i * 3 + 5) as u8));
+                let mut n = p.clone();
+                n[l - 1] ^= 0x54;
+                (b, g, n)
+            }
+        };
+        for padded in [false, true] {
+            for with_point in [false, true] {
+                let mut w = W::new();
+                w.u8(1);
+                let pp = if padded { [&[0u8][..], &p[..]].concat() } else { p.clone() };
+                for f in [&pp, &a, &b, &g, &n, &vec![1u8]] {
+                    w.block(1, "ec_field_len", |w| {
+                        w.bytes(f);
+                    });
+                }
+                if with_point {
+                    w.block(1, "ec_point_len", |w| {
+                        w.bytes(&g);
+                    });
+                }
+                v.push(w);
+            }
+        }
+    }
+    v
+}
+
+/// ServerDHParams on the well-known moduli with generator 2 and a plausible public value
+pub fn dh_well_known() -> Vec<W> {
+    let mut v = Vec::new();
+    for (_, p) in well_known_primes() {
+        for g in [vec![2u8], vec![0, 2], vec![5]] {
+            let ys: Vec<u8> = p.iter().enumerate().map(|(i, b)| if i == 0 { b >> 1 } else { b ^ 0x5a }).collect();
+            let mut w = W::new();
+            for f in [&p, &g, &ys] {
+                w.block(2, "dh_len", |w| {
+                    w.bytes(f);
+                });
+            }
+            v.push(w);
+        }
+    }
+    v
+}
+
+/// Byte strings that are well-formed instances of *other* structures (DER names, lists of names, extension lists,
+/// records, messages, protocol text): used as the content of lists of enumerated values, whose decoders have no
+/// business recognising them.
+pub fn foreign_blobs() -> Vec<Vec<u8>> {
+    let dn: Vec<u8> = vec![0x30, 0x0c, 0x31, 0x0a, 0x30, 0x08, 0x06, 0x03, 0x55, 0x04, 0x03, 0x0c, 0x01, 0x61];
+    let mut v: Vec<Vec<u8>> = vec![
+        vec![0x00, 0x04, 0x30, 0x02, 0x31, 0x00],
+        [&[0x00, 0x0e][..], &dn[..]].concat(),
+        [&[0x00, 0x0e][..], &dn[..], &[0x00, 0x04, 0x30, 0x02, 0x31, 0x00][..]].concat(),
+        dn.clone(),
+        vec![0x30, 0x02, 0x31, 0x00],
+        vec![0x16, 0x03, 0x03, 0x00, 0x04, 0x0e, 0x00, 0x00, 0x00],
+        vec![0x0e, 0x00, 0x00, 0x00],
+        vec![0x00, 0x0c, 0x02, b'h', b'2', 0x08, b'h', b't', b't', b'p', b'/', b'1', b'.', b'1'],
+        b"HTTP/1.1 200 OK\r\n\r\n".to_vec(),
+        b"GET / HTTP/1.1\r\n".to_vec(),
+        vec![0x06, 0x03, 0x55, 0x1d, 0x0f, 0x00],
+        vec![0x04, 0x02, 0x00, 0x00],
+        vec![0x00, 0x02, 0x00, 0x00],
+        vec![0x00, 0x00, 0x00, 0x02, 0x00, 0x00],
+    ];
+    let p = hello_profiles();
+    v.push(p[5].clone());
+    v.push(p[9].clone());
+    v.push([&[0u8, p[5].len() as u8][..], &p[5][..]].concat());
+    v
+}
+
+/// CertificateRequest / ClientHello messages and extensions whose lists of enumerated values (signature algorithms,
+/// certificate types, cipher suites, compression methods, groups, versions, modes, point formats) carry the
+/// `foreign_blobs` (as they are, and padded to an even length for 16-bit lists)
+pub fn enum_lists_with_foreign_content() -> (Vec<W>, Vec<W>) {
+    let mut msgs = Vec::new();
+    let mut exts = Vec::new();
+    for blob in foreign_blobs() {
+        let mut even = blob.clone();
+        if even.len() % 2 == 1 {
+            even.push(0);
+        }
+        for b in [&blob, &even] {
+            if b.len() > 255 {
+                continue;
+            }
+            for dns in [0usize, 1] {
+                // signature algorithms / certificate types of a CertificateRequest
+                msgs.push(hs(13, |w| {
+                    w.block(1, "types", |w| {
+                        w.u8(1).u8(64);
+                    });
+                    w.block(2, "algs", |w| {
+                        w.bytes(b);
+                    });
+                    w.block(2, "dns", |w| {
+                        for _ in 0..dns {
+                            w.block(2, "dn", |w| {
+                                w.bytes(&[0x30, 0x02, 0x31, 0x00]);
+                            });
+                        }
+                    });
+                }));
+                msgs.push(hs(13, |w| {
+                    w.block(1, "types", |w| {
+                        w.bytes(b);
+                    });
+                    w.block(2, "algs", |w| {
+                        w.u16(0x0403).u16(0x0804);
+                    });
+                    w.block(2, "dns", |w| {
+                        for _ in 0..dns {
+                            w.block(2, "dn", |w| {
+                                w.bytes(&[0x30, 0x02, 0x31, 0x00]);
+                            });
+                        }
+                    });
+                }));
+            }
+            // cipher suites / compression methods of a ClientHello
+            msgs.push(hs(1, |w| {
+                w.u16(0x0303);
+                fill(w, 32, 0x40);
+                w.u8(0);
+                w.block(2, "ciphers_len", |w| {
+                    w.bytes(b);
+                });
+                w.block(1, "comp_len", |w| {
+                    w.u8(0);
+                });
+            }));
+            msgs.push(hs(1, |w| {
+                w.u16(0x0303);
+                fill(w, 32, 0x40);
+                w.u8(0);
+                w.block(2, "ciphers_len", |w| {
+                    w.u16(0x1301);
+                });
+                w.block(1, "comp_len", |w| {
+                    w.bytes(b);
+                });
+                w.block(2, "ext_len", |_| {});
+            }));
+            for t in [10u16, 13, 50] {
+                exts.push(ext(t, |w| {
+                    w.block(2, "list_len", |w| {
+                        w.bytes(b);
+                    });
+                }));
+            }
+            for t in [43u16, 45, 11] {
+                exts.push(ext(t, |w| {
+                    w.block(1, "list_len", |w| {
+                        w.bytes(b);
+                    });
+                }));
+            }
+        }
+    }
+    (msgs, exts)
+}
